@@ -1250,6 +1250,8 @@ def reduce_axis(eng, kind, a, axis=None, keepdims=False):
 
         def fn(*oidx):
             return site.apply(oidx)
+        if not out_shape:
+            instantiate_reduction(eng, site, kind, n, term_at)
     if not out_shape:
         return fn()
     dt = a.dtype
@@ -1284,6 +1286,34 @@ def fold(kind, vals, dtype="real"):
     if kind == "all":
         return T.land(*[T.zb(v) if T.is_sym(v) else bool(v) for v in vals])
     raise Unsupported(kind)
+
+
+def instantiate_reduction(eng, site, kind, n, term_at):
+    """Ground consequences of the definition of a full reduction over a symbolic range [0, n):
+    a witness index for min/max/any/all and the bounds at the harness's generic indices (eng.generic_indices)."""
+    val = site.apply(())
+    gens = list(getattr(eng, "generic_indices", []))
+    if kind in ("min", "max"):
+        w = T.fresh(f"arg{kind}", "int")
+        eng.add_axiom(z3.Implies(T.zi(n) >= 1, z3.And(w >= 0, w < T.zi(n), T.compare("eq", val, term_at((), w)))))
+        for g in gens:
+            eng.add_axiom(z3.Implies(z3.And(T.zi(g) >= 0, T.zi(g) < T.zi(n)), T.compare("le" if kind == "min" else "ge", val, term_at((), g))))
+        site.witness = w
+    elif kind in ("any", "all"):
+        w = T.fresh(f"wit{kind}", "int")
+        tw = term_at((), w)
+        tw = T.zb(tw) if T.is_sym(tw) else z3.BoolVal(bool(tw))
+        if kind == "any":
+            eng.add_axiom(z3.Implies(val, z3.And(w >= 0, w < T.zi(n), tw)))
+            for g in gens:
+                tg = term_at((), g)
+                eng.add_axiom(z3.Implies(z3.And(T.zi(g) >= 0, T.zi(g) < T.zi(n), T.zb(tg) if T.is_sym(tg) else z3.BoolVal(bool(tg))), val))
+        else:
+            eng.add_axiom(z3.Implies(z3.Not(val), z3.And(w >= 0, w < T.zi(n), z3.Not(tw))))
+            for g in gens:
+                tg = term_at((), g)
+                eng.add_axiom(z3.Implies(z3.And(T.zi(g) >= 0, T.zi(g) < T.zi(n), val), T.zb(tg) if T.is_sym(tg) else z3.BoolVal(bool(tg))))
+        site.witness = w
 
 
 class ReductionSite:
